@@ -578,6 +578,7 @@ type Lemma struct {
 type GhostVar struct{ Name, Type string }
 
 type Contracts struct {
+	OwnPkg string // name of the package under verification (for package-qualified func headers)
 	Funcs  map[string]*FuncContract
 	Specs  map[string]*SpecFunc
 	Axioms []*Axiom
@@ -691,6 +692,12 @@ func (cs *Contracts) LoadFile(path string, flags map[string]bool) error {
 			}
 			fc.File, fc.Line = base, l.n
 			fc.Trusted = word == "extern"
+			// "func <pkg>.<Name>(...)" written in the contract file of package <pkg> itself: the local function <Name>
+			// under a package-qualified key, so that it cannot clash with a function of the same name in a package
+			// that loads these contracts (ast.Optimize / builder.Optimize)
+			if word == "func" && cs.OwnPkg != "" && !trusted && strings.HasPrefix(fc.Key, cs.OwnPkg+".") && !strings.HasPrefix(strings.TrimSpace(rest), "(") {
+				fc.Key = strings.TrimPrefix(fc.Key, cs.OwnPkg+".")
+			}
 			if _, dup := cs.Funcs[fc.Key]; dup {
 				return fail(fmt.Errorf("duplicate contract for %s", fc.Key))
 			}
